@@ -57,6 +57,40 @@ theorem C02_published (d : Definition) (cfg : Gen.Cfg) (items : List Gen.Item) (
         Gen.Item.raw (s!"#[repr(align({d.maxTypeAlign}))]pub struct {Gen.capped s.vid}<{Gen.CAPG}>" ++ "{data:RecordMaybeUninit<CAP>,}") ∈ items :=
   Gen.module_layout_items d cfg items h
 
+/-- the three statements combined, in the form a user of the generated code relies on: for a
+    definition built from any valid history, if the record buffer starts at an address that is a
+    multiple of the imposed record alignment (`#[repr(align(max_type_align()))]`), then the *absolute
+    address* of every datum of every variant is a multiple of that datum's alignment and the datum's
+    bytes lie inside `[base, base + MAX_SIZE)` -/
+theorem C02_address_aligned_contained (reqs : List Req) (hv : ∀ r ∈ reqs, r.valid) (def_ : Definition)
+    (hb : (run reqs).build = some def_) (hp : ∀ i ∈ def_.defs, IsPow2 i.align)
+    (m : Nat) (hm : def_.maxSize = some m) (base : Nat) (hbase : def_.maxTypeAlign ∣ base) :
+    ∀ v ∈ def_.variants, ∀ d ∈ v,
+      al def_.defs d ∣ base + off def_.defs d ∧
+      base + off def_.defs d + sz def_.defs d ≤ base + m := by
+  intro v hvm d hd
+  have hdef : def_ = ⟨(run reqs).defs, (run reqs).variants⟩ := by
+    unfold BState.build at hb
+    split at hb
+    · exact (Option.some.inj hb).symm
+    · simp at hb
+  have hvm' : v ∈ (run reqs).variants := by rw [hdef] at hvm; exact hvm
+  have hinv := (reachable_BInv reqs hv).vinv v hvm'
+  have hlt : d < def_.defs.length := by rw [hdef]; exact hinv.inRange d hd
+  have h1 : al def_.defs d ∣ off def_.defs d := by rw [hdef]; exact hinv.aligned d hd
+  have h2 : al def_.defs d ∣ def_.maxTypeAlign := C02_record_align reqs def_ hb hp v hvm d hd hlt
+  have h3 := C02_contained reqs def_ hb m hm v hvm d hd
+  exact ⟨Nat.dvd_add (Nat.dvd_trans h2 hbase) h1, by omega⟩
+
+/-- non-vacuity of the premises of `C02_address_aligned_contained`: a concrete valid history builds,
+    has power-of-two alignments and a finite capacity -/
+example : (∀ r ∈ Ex.h1, r.valid) ∧ ((run Ex.h1).build.bind (·.maxSize)) = some 24 ∧
+    ((run Ex.h1).build.map (fun d => d.defs.all (fun i => i.align ∈ [1, 2, 4, 8, 16]))) = some true := by
+  refine ⟨?_, by decide +kernel⟩
+  intro r hr
+  simp only [Ex.h1, List.mem_cons, List.mem_nil_iff, or_false] at hr
+  rcases hr with rfl | rfl | rfl | rfl | rfl | rfl | rfl | rfl | rfl | rfl <;> simp [Req.valid, Ex.I, Strategy.isNative]
+
 /-- non-vacuity -/
 example : ((run Ex.h1).build.bind (·.maxSize)) = some 24 ∧ ((run Ex.h1).build.map (·.maxTypeAlign)) = some 4 ∧
     ((run Ex.h1).build.map (fun d => d.defs.map (·.align))) = some [4, 2, 1, 4, 1, 2] := by
